@@ -6,12 +6,14 @@ import (
 	"context"
 	"encoding/hex"
 	"fmt"
+	"math"
 	"math/big"
 	"sort"
 	"strings"
 	"testing"
 	"time"
 
+	"github.com/golang/protobuf/ptypes/empty"
 	"github.com/massnetorg/mass-core/massutil"
 	"github.com/massnetorg/mass-core/wire"
 	"massnet.org/mass-wallet/api"
@@ -192,7 +194,8 @@ func (a *apiCtx) callAPI(t *rapid.T) {
 	method := rapid.SampledFrom([]string{"DecodeRawTransaction", "CreateRawTransaction", "CreateStakingTransaction", "CreateBindingTransaction",
 		"AutoCreateTransaction", "GetTransactionFee", "TxHistory", "GetStakingHistory", "GetBindingHistory", "SignRawTransaction", "CreateAddress",
 		"GetAddresses", "ValidateAddress", "GetWalletBalance", "GetAddressBalance", "UseWallet", "Wallets", "GetUtxo", "ImportWallet", "ImportMnemonic",
-		"CreateWallet", "ExportWallet", "GetWalletMnemonic", "RemoveWalletWrongPass", "CreatePoolPkCoinbaseTransaction", "GetRawTransaction", "GetTxStatus"}).Draw(t, "method")
+		"CreateWallet", "ExportWallet", "GetWalletMnemonic", "RemoveWalletWrongPass", "CreatePoolPkCoinbaseTransaction", "GetRawTransaction", "GetTxStatus",
+		"GetClientStatus", "GetBestBlock", "GetBlockByHeight", "GetNetworkBinding", "CheckPoolPkCoinbase", "CheckTargetBinding", "SendRawTransaction"}).Draw(t, "method")
 	var desc string
 	var run func() (interface{}, error)
 	switch method {
@@ -369,6 +372,52 @@ func (a *apiCtx) callAPI(t *rapid.T) {
 		req := &pb.GetTxStatusRequest{TxId: rapid.SampledFrom(txids).Draw(t, "txid")}
 		desc = fmt.Sprintf("%+v", req)
 		run = func() (interface{}, error) { return a.srv.GetTxStatus(ctx, req) }
+	case "GetClientStatus":
+		desc = "-"
+		run = func() (interface{}, error) { return a.srv.GetClientStatus(ctx, &empty.Empty{}) }
+	case "GetBestBlock":
+		desc = "-"
+		run = func() (interface{}, error) { return a.srv.GetBestBlock(ctx, &empty.Empty{}) }
+	case "GetBlockByHeight", "GetBlockStakingReward", "GetNetworkBinding":
+		tip := a.w.node.Height()
+		h := rapid.SampledFrom([]uint64{0, 1, tip / 2, tip, tip + 1, tip + 1000, 1 << 40, math.MaxUint64}).Draw(t, "height")
+		desc = fmt.Sprintf("height=%d (tip %d)", h, tip)
+		switch method {
+		case "GetBlockByHeight":
+			run = func() (interface{}, error) {
+				return a.srv.GetBlockByHeight(ctx, &pb.GetBlockByHeightRequest{Height: h})
+			}
+		case "GetBlockStakingReward":
+			run = func() (interface{}, error) {
+				return a.srv.GetBlockStakingReward(ctx, &pb.GetBlockStakingRewardRequest{Height: h})
+			}
+		default:
+			run = func() (interface{}, error) {
+				return a.srv.GetNetworkBinding(ctx, &pb.GetNetworkBindingRequest{Height: h})
+			}
+		}
+	case "CheckPoolPkCoinbase":
+		keys := rapid.SliceOfN(rapid.SampledFrom([]string{"", "00", "zz", strings.Repeat("02", 33), "02" + strings.Repeat("ab", 32), strings.Repeat("f", 200)}), 0, 3).Draw(t, "poolKeys")
+		desc = fmt.Sprintf("%q", keys)
+		run = func() (interface{}, error) {
+			return a.srv.CheckPoolPkCoinbase(ctx, &pb.CheckPoolPkCoinbaseRequest{PoolPubkeys: keys})
+		}
+	case "CheckTargetBinding":
+		tg := rapid.SliceOfN(rapid.SampledFrom(append([]string{"", "garbage", strings.Repeat("m", 90)}, addrs...)), 0, 3).Draw(t, "targets")
+		desc = fmt.Sprintf("%q", tg)
+		run = func() (interface{}, error) {
+			return a.srv.CheckTargetBinding(ctx, &pb.CheckTargetBindingRequest{Targets: tg})
+		}
+	case "SendRawTransaction":
+		h := a.genHex(t)
+		desc = trimTo(h, 120)
+		run = func() (interface{}, error) {
+			r, err := a.srv.SendRawTransaction(ctx, &pb.SendRawTransactionRequest{Hex: h})
+			if sim.DrainPool() > 0 {
+				a.w.flag("send-accepted-by-the-pool")
+			}
+			return r, err
+		}
 	}
 	var rerr error
 	o := guard.Call(60*time.Second, func() { _, rerr = run() })
